@@ -619,6 +619,7 @@ func c08Contended(events []string) bool {
 }
 
 func checkC08(c *Ctx) {
+	duplexStress(c, "C08")
 	c08CloseRace(c)
 	c.SetRule("one case = one schedule of 2..6 concurrent Connection.Write calls on a real hap.Connection (forced: enumerated " +
 		"choice sequences over the stop points before-Write / in-Encrypt / in-socket-write; free: Gosched/sleep noise, optional " +
@@ -664,8 +665,10 @@ func checkC08(c *Ctx) {
 		{"3x1:f1,f1,f3", [][]int{{1}, {2}, {2049}}},
 		{"2x2:f1+f2,f3+f1", [][]int{{7, 1100}, {2050, 1024}}},
 		{"3x2,1,1", [][]int{{3, 1025}, {1024}, {9}}},
+		{"2x1:f34,f1", [][]int{{34000}, {7}}},       // a payload of more than 32 frames (the accessory database of a bridge) against an event
+		{"3x1:f70,f1,f40", [][]int{{70000}, {12}, {40001}}},
 	}
-	budget := []int{c.Pick(60, 400), c.Pick(40, 400), c.Pick(40, 400), c.Pick(120, 1500), c.Pick(120, 1500), c.Pick(80, 800), c.Pick(80, 2500)}
+	budget := []int{c.Pick(60, 400), c.Pick(40, 400), c.Pick(40, 400), c.Pick(120, 1500), c.Pick(120, 1500), c.Pick(80, 800), c.Pick(80, 2500), c.Pick(40, 400), c.Pick(60, 1500)}
 	par := 6
 	runWave := func(jobs []job, f func(j job) *c08Result) []*c08Result {
 		out := make([]*c08Result, len(jobs))
@@ -745,7 +748,7 @@ func checkC08(c *Ctx) {
 	}
 
 	// ---- forced, random choice sequences over larger configurations ---------------------------------
-	lensPool := []int{0, 1, 5, 1023, 1024, 1025, 2048, 2049, 3000}
+	lensPool := []int{0, 1, 5, 1023, 1024, 1025, 2048, 2049, 3000, 1, 7, 1024, 32768, 32769, 33797, 66000}
 	genCfg := func(r *rand.Rand, maxW, maxWr int) c08Cfg {
 		n := 2 + r.Intn(maxW-1)
 		var lens [][]int
